@@ -834,6 +834,10 @@ var (
 	vc11BadPeers  = []string{"notapeer", "Qm", "", "QmXZrtE5jQwXNqCJMfHUTQkvhQ4ZAnqMnmzFMJfLewuab", "123"}
 	vc11GoodPaths = []string{"/ipfs/QmaNJ5acV31sx8jq626qTpAWW4DXKw34aGhx53dECLvXbY", "/ipfs/QmbUNM297ZwxB8CfFAznK7H9YMesDoY6Tt5bPgt5MSCB2u/im.gif", "/ipfs/QmbUNM297ZwxB8CfFAznK7H9YMesDoY6Tt5bPgt5MSCB2u/im.gif/",
 		"/ipns/QmbmSAQNnfGcBAB8M8AsSPxd1TY7cpT9hZ398kXAScn2Ka", "/ipld/QmaNJ5acV31sx8jq626qTpAWW4DXKw34aGhx53dECLvXbY", "/ipns/example.com/a/b", "/ipfs/bafyreiay3jpjk74dkckv2r74eyvf3lfnxujefay2rtuluintasq2zlapv4/x"}
+	// path components that need URL escaping (S27): '%', '?', '#', ' ' inside an IPFS path or a metric name
+	vc11OddPaths = []string{"/ipfs/QmaNJ5acV31sx8jq626qTpAWW4DXKw34aGhx53dECLvXbY/a b", "/ipfs/QmbUNM297ZwxB8CfFAznK7H9YMesDoY6Tt5bPgt5MSCB2u/100%25.gif", "/ipns/example.com/a?b#c",
+		"/ipns/example.com/x%2Fy", "/ipfs/QmaNJ5acV31sx8jq626qTpAWW4DXKw34aGhx53dECLvXbY/%zz", "/ipns/recover", "/ipfs/QmaNJ5acV31sx8jq626qTpAWW4DXKw34aGhx53dECLvXbY/recover"}
+	vc11OddNames = []string{"a%41", "a?b", "a#b", "a b", "100%", "%zz", "x%2Fy"}
 	vc11BadPaths  = []string{"/ipfs/invalidhash", "/ipfs/", "/ipfs", "/ipld/x/y", "/ipfs/Qm", "/ipns/", "/ipfs//a"}
 	vc11Origins   = []string{"/ip4/1.2.3.4/tcp/4001/p2p/QmXZrtE5jQwXNqCJMfHUTQkvhQ4ZAnqMnmzFMJfLewuabc", "/dns4/example.com/tcp/4001/p2p/QmUZ13osndQ5uL4tPWHXe3iBgBgq9gfewcBMSCAuMBsDJ6"}
 	vc11Statuses  = []string{"cluster_error", "pin_error", "unpin_error", "error", "pinned", "pinning", "unpinning", "unpinned", "remote", "pin_queued", "unpin_queued", "queued", "sharded", "unexpectedly_unpinned"}
@@ -993,7 +997,9 @@ func vc11Routes() []vc11RouteGen {
 		{"GET", func(r *vRand, c *vc11Case) { c.Path = "/pins/" + vc11Cid(r, 65); vc11Local(r, c); vc11PinQuery(r, c, 6) }, []string{"Cluster.Status", "Cluster.StatusLocal"}},
 		{"POST", func(r *vRand, c *vc11Case) { c.Path = "/pins/" + vc11Cid(r, 75); vc11PinQuery(r, c, 28) }, []string{"Cluster.Pin"}},
 		{"POST", func(r *vRand, c *vc11Case) {
-			if r.chance(70) {
+			if r.chance(12) {
+				c.Path = "/pins" + vc11Pick(r, vc11OddPaths)
+			} else if r.chance(70) {
 				c.Path = "/pins" + vc11Pick(r, vc11GoodPaths)
 			} else {
 				c.Path = "/pins" + vc11Pick(r, vc11BadPaths)
@@ -1074,7 +1080,12 @@ func vc11GenClient(r *vRand) vc11Case {
 	c.Peer = vc11Pick(r, vc11GoodPeers)
 	c.Local = r.chance(45)
 	c.Name = vc11Pick(r, []string{"ping", "freespace", "a.b", "x_y-z", "numpin"})
-	if r.chance(80) {
+	if r.chance(25) {
+		c.Name = vc11Pick(r, vc11OddNames)
+	}
+	if r.chance(15) {
+		c.Path = vc11Pick(r, vc11OddPaths)
+	} else if r.chance(80) {
 		c.Path = vc11Pick(r, append(vc11GoodPaths, "QmaNJ5acV31sx8jq626qTpAWW4DXKw34aGhx53dECLvXbY", "QmbUNM297ZwxB8CfFAznK7H9YMesDoY6Tt5bPgt5MSCB2u/im.gif"))
 	} else {
 		c.Path = vc11Pick(r, vc11BadPaths)
